@@ -390,3 +390,33 @@ def design_runs(res, runs, workers=4):
         res.cov.setdefault("design_runs", []).append({"cfg": cfg, "expected": "holds" if must_hold else "violated (negative control)",
                                                       "distinct_states": o["distinct"], "states_generated": o["states"]})
     return outs
+
+
+def tlapm(module, timeout=600):
+    """Check the TLAPS proofs of spec/<module>.tla in a scratch directory. Returns (obligations, proved)."""
+    import tempfile
+    d = tempfile.mkdtemp(prefix="tlapm.", dir=CACHE if os.path.isdir(CACHE) else None)
+    try:
+        for f in glob.glob(os.path.join(SPEC, "*.tla")):
+            shutil.copy(f, d)
+        r = subprocess.run(["timeout", str(timeout), "tlapm", "--cleanfp", "-I", d, module + ".tla"], cwd=d,
+                           stdout=subprocess.PIPE, stderr=subprocess.STDOUT, text=True, errors="replace")
+        out = r.stdout
+        m = re.search(r"All (\d+) obligations? proved", out)
+        if m:
+            return int(m.group(1)), int(m.group(1))
+        m = re.search(r"(\d+)/(\d+) obligations failed", out)
+        if m:
+            return int(m.group(2)), int(m.group(2)) - int(m.group(1))
+        raise Infra("tlapm failed on %s:\n%s" % (module, out[-2000:]))
+    finally:
+        shutil.rmtree(d, ignore_errors=True)
+
+
+def proofs(res, module):
+    n, ok = tlapm(module)
+    if ok != n:
+        raise Infra("TLAPS could not discharge %d of %d obligations of %s (the specification's own theorems; not a verdict on the code)" % (n - ok, n, module))
+    res.cov["tlaps_obligations"] = n
+    res.cov["tlaps_discharged"] = ok
+    res.cov["tlaps_module"] = module + ".tla (proved for every input length and chunk size)"
